@@ -32,6 +32,12 @@ CHECKS = {
          "After every creation / anywhere / stack / resize / mem_prot / brk call the area list is walked: pairwise disjoint, lengths consistent, untouched areas byte-identical, overlap requests rejected, anywhere allocations fresh and correctly filled, resize succeeds iff no collision and keeps prefix / zero-fills growth. Non-termination is caught by the supervisor's progress watchdog and confirmed alone.", MODEL_NOTE),
  "C17": ("model", "runtime monitoring: guest-side observation (stepped POP instructions) of the entry frame against the System V layout, area-list hook for placement", "2.2, 4/C17",
          "For generated argv/envp lists, stack sizes and machines, the frame is observed the way a guest does (POP, byte-wise string reads) and compared with argc / pointers / NULLs / strings; alignment, freshness, writability, disjointness from the program image and the stack space below RSP are checked through the area-list hook.", MODEL_NOTE),
+ "C13": ("model", "runtime monitoring of guest brk/store/load histories against a (base, break, byte map) model with the area-list invariant hook", "2.2, 4/C13",
+         "Guest-level histories (real syscall / MOV instructions stepped through the emulator) of break queries, grows, shrinks and regrows interleaved with stores and loads at heap edges, under surrounding layouts that get in the heap's way; the break returned, the readability/writability of every byte below it and the survival of stored bytes are compared with the model after every operation.", MODEL_NOTE),
+ "C14": ("model", "runtime monitoring of guest pipe/read/write histories against per-pipe FIFO queues (unique byte stream, final drain = conservation) plus a probe hook log", "2.2, 4/C14",
+         "Every read's count and bytes are compared with a VecDeque model per pipe, bytes beyond the returned count must stay untouched, every pipe is drained at the end, and syscalls on non-pipe descriptors must show up in the log of a hook registered after handle_syscalls.", MODEL_NOTE),
+ "C15": ("model", "runtime monitoring of from_binary over generated well-formed ELF files with the file itself as the oracle", "2.2, 4/C15",
+         "The harness writes ELF64 executables covering segment count/order/alignment/size classes/flags/extra headers/symbol-table corner cases and compares the loaded machine (area-list hook, mem_read_bytes, RIP, resolve_symbol) with the file's own bytes; the bundled binaries are checked the same way.", MODEL_NOTE),
 }
 NOT_YET = {}
 
